@@ -160,7 +160,9 @@ class Spec:
                         best[p[0]] = max(best.get(p[0], inst(p)), inst(p))
                 w = [r for r in w if sel(r) is not None and len(sel(r)) > 1 and inst(sel(r)) == best[sel(r)[0]]]
         n, k = lo.get("max", 0), lo.get("offset", 0)
-        skip = max(wrap64(n * k), 0)       # LookupSpec.spec_page: the product is computed in Go's 64-bit int
+        # LookupSpec.spec_page / skip_count: the product of two positive ints saturates at MaxInt (every real result is
+        # shorter); the other sign combinations are characterised with Go's wrapping int arithmetic
+        skip = min(n * k, (1 << 63) - 1) if n > 0 and k > 0 else max(wrap64(n * k), 0)
         w = w[skip:skip + n] if n > 0 else w[skip:]
         body = []
         for r in w:
